@@ -76,7 +76,10 @@ class _Ev:
             if nd.get("arrow"):
                 if bn["k"] == "Un" and bn["op"] == "&":
                     return "%s.%s" % (self.lv(p, bn["ch"][0]), nd["field"])
-                return "%s->%s" % (_wrap(lin.p_str(self.ev(p, b))), nd["field"])
+                bv = lin.p_str(self.ev(p, b))
+                if bv.startswith("&") and " + " not in bv:
+                    return "%s.%s" % (bv[1:], nd["field"])          # (&X)->f is X.f
+                return "%s->%s" % (_wrap(bv), nd["field"])
             if bn["k"] == "Un" and bn["op"] == "*":
                 return "%s->%s" % (_wrap(lin.p_str(self.ev(p, bn["ch"][0]))), nd["field"])
             return "%s.%s" % (self.lv(p, b), nd["field"])
